@@ -283,6 +283,10 @@ func forgetChips() {
 // rangeLemmas runs every item's body (which must constrain its raw input atom x) in ONE circuit
 // under cfg and adds, per item, the obligations accepted <=> 0 <= x < bound. The constraints of
 // different items are separated by cone-of-influence slicing (shared atoms).
+// padFirst: in the commit configuration, put the padding checks between the first and the remaining
+// items instead of after all of them.
+var padFirst bool
+
 func rangeLemmas(r *Run, cfg rcConfig, items []rangeItem) {
 	api := cfg.newAPI()
 	e := cur
@@ -290,15 +294,21 @@ func rangeLemmas(r *Run, cfg rcConfig, items []rangeItem) {
 	chip := newChip(api)
 	kind := actualKind(chip)
 	xs := make([]*sym.Term, len(items))
-	for i, it := range items {
-		xs[i] = inAtom(fmt.Sprintf("x%d", i), sym.Rm1)
-		it.body(chip, gl.NewVariable(xs[i]))
-	}
-	if kind == "commit" {
+	addPad := func() {
 		pad := inAtom("pad", sym.Rm1)
 		for i := 0; i < commitPad; i++ {
 			chip.RangeCheckWithMaxBits(gl.NewVariable(pad), 32)
 		}
+	}
+	for i, it := range items {
+		if kind == "commit" && padFirst && i == 1 {
+			addPad() // after the first item, before the rest: item 0 is collected first, the last item last
+		}
+		xs[i] = inAtom(fmt.Sprintf("x%d", i), sym.Rm1)
+		it.body(chip, gl.NewVariable(xs[i]))
+	}
+	if kind == "commit" && !padFirst {
+		addPad()
 	}
 	var derr error
 	if pm := catchPanic(func() { derr = e.RunDeferred() }); pm != "" || derr != nil {
@@ -539,6 +549,17 @@ func runC06(r *Run) {
 		items = append(items, rangeItem{name: fmt.Sprintf("rangeGL[%s]", cfg), bound: P, gadget: "RangeCheck", body: func(chip *gl.Chip, x gl.Variable) { chip.RangeCheck(x) }})
 		rangeLemmas(r, cfg, items)
 		r.Discharge()
+		if kind == "commit" {
+			// the same mechanism with the checks under test collected LAST (padding first): the deferred
+			// callback must enforce every collected check, the first and the last one included
+			padFirst = true
+			rangeLemmas(r, cfg, []rangeItem{
+				{name: fmt.Sprintf("rangeN[%s,n=32,collected first]", cfg), bound: pow2(32), gadget: "RangeN", n: 32, compl: "direct", body: func(chip *gl.Chip, x gl.Variable) { chip.RangeCheckWithMaxBits(x, 32) }},
+				{name: fmt.Sprintf("rangeN[%s,n=16,collected last]", cfg), bound: pow2(16), gadget: "RangeN", n: 16, compl: "direct", body: func(chip *gl.Chip, x gl.Variable) { chip.RangeCheckWithMaxBits(x, 16) }},
+			})
+			padFirst = false
+			r.Discharge()
+		}
 	}
 	// layered form used by every other check: RangeCheck with the n-bit checks replaced by facts
 	setHooks(factHooksL0)
